@@ -122,6 +122,23 @@ ld backward_error(const slu_vt *vt, csc_q *F, int op, const void *X, int ldx, co
     hx_free(r); hx_free(den); return w;
 }
 
+/* componentwise backward error in the two-category form of Arioli, Demmel and Duff: a row whose denominator (|op(A)||x| + |b|)_i is
+   negligible against ||op(A)_i||_1 ||x||_inf + |b_i| (a structurally zero solution component met by a zero right-hand side entry)
+   is measured against the latter; such a row makes the plain Oettli-Prager quotient 1 for any X that is not exactly zero there,
+   which no refinement in floating point removes.  *ntiny counts those rows. */
+ld backward_error_add(const slu_vt *vt, csc_q *F, int op, const void *X, int ldx, const void *B0, int ldb, int k, int *ntiny)
+{
+    int n = F->n; zq *r = hx_calloc(n + 1, sizeof(zq)); ld *den = hx_calloc(n + 1, sizeof(ld)), *rn = hx_calloc(n + 1, sizeof(ld)); ld w = 0, xinf = 0; int nt = 0;
+    residual(vt, F, op, X, ldx, B0, ldb, k, r, den);
+    for (int j = 0; j < n; ++j) { zq x; el_get(vt, X, (long)k * ldx + j, &x.re, &x.im); ld a = zq_abs(x); if (a > xinf) xinf = a;
+        for (long p = F->ptr[j]; p < F->ptr[j + 1]; ++p) rn[op == 0 ? F->ind[p] : j] += zq_abs(F->val[p]); }
+    for (int i = 0; i < n; ++i) { zq b; el_get(vt, B0, (long)k * ldb + i, &b.re, &b.im); ld alt = rn[i] * xinf + zq_abs(b), e = zq_abs(r[i]), dd = den[i];
+        if (dd < 1000 * (ld)n * (ld)vt->eps * alt) { dd = alt; if (e > 0) nt++; }
+        if (dd > 0) { if (e / dd > w) w = e / dd; } else if (e > 0) w = INFINITY; }
+    if (ntiny) *ntiny = nt;
+    hx_free(r); hx_free(den); hx_free(rn); return w;
+}
+
 /* exact (extended precision) solve with the returned factors: does some intermediate or final magnitude leave the range of the
    working precision?  Then a non-finite X is the correct floating-point outcome (the rounding-error model of C01/C07/C08 assumes no
    overflow); otherwise it is a violation. */
